@@ -33,7 +33,7 @@ def make_script(cfg, rng):
 
     names = []
     for i in range(n_par):
-        L.append(f"lcdp{i} = LCD(rs={nxt()}, en={nxt()}, d4={nxt()}, d5={nxt()}, d6={nxt()}, d7={nxt()}" + (f", backlight_pin={nxt()}" if rng.random() < 0.3 else "") + ")")
+        L.append(f"lcdp{i} = LCD(rs={nxt()}, en={nxt()}, d4={nxt()}, d5={nxt()}, d6={nxt()}, d7={nxt()}" + (f", backlight_pin={nxt()}" if rng.random() < 0.3 else "") + (f", rw={nxt()}" if rng.random() < 0.4 else "") + ")")
         names.append(("lcd", f"lcdp{i}"))
     for i in range(n_i2c):
         addr = rng.choice([str(0x20 + i), "0", "0x00", "0x27 - 39", hex(0x3F - i)])
